@@ -53,7 +53,7 @@ def main():
             "engine": eng,
             "level_claimed": {"category": "model_checking", "text": "bounded symbolic model checking of the real code: " + text, "design_ref": "DESIGN.md " + ref},
             "level_note": NOTE_SYMX if eng == "symx" else NOTE_XH,
-            "technique": SYMX if eng == "symx" else XH,
+            "technique": (SYMX if eng == "symx" else XH) + (" + z3 regular-expression equivalence on an encoding regenerated from the presets in the source" if i == "C20" else ""),
         })
     man = {
         "version": 1,
